@@ -223,11 +223,14 @@ def run(tier):
     # 1. dry runs: the calls each scenario performs
     plan = []
     dry = {}
+    skipped = []
     with ThreadPoolExecutor(max_workers=8) as ex:
         for s, r in zip(scens, ex.map(lambda s: run_one(chk, bindir, s), scens)):
             evs, calls, status, _, fm = window(r)
             if status != "complete":
-                raise core.ToolError("scenario %s does not complete without faults (%s): %s" % (s, status, r["stderr"]))
+                # the environment does not support the scenario's set-up (no loopback, no /dev/ptmx, ...)
+                skipped.append({"scenario": s, "status": status, "stderr": r["stderr"][-300:]})
+                continue
             dry[s] = (r, evs, calls)
             plan.append({"scenario": s, "k": None, "errno": None})
             for c in calls:
@@ -236,6 +239,9 @@ def run(tier):
                     names += [n for n in COMMON if n not in names]
                 for n in names:
                     plan.append({"scenario": s, "k": c["k"], "errno": ERRNO[n], "errname": n, "call": c["name"]})
+    if len(dry) < 40:
+        raise core.ToolError("only %d of %d scenarios complete without faults: %s" % (len(dry), len(scens), json.dumps(skipped[:5])))
+    scens = [s for s in scens if s in dry]
     # 2. faulted runs
     def exec_item(it):
         if it["k"] is None:
@@ -341,7 +347,7 @@ def run(tier):
         "values whose descriptors the API does not expose (Directory, listeners, EpollDriver) are judged after the driver dropped them",
         "not reached: descriptors received via SCM_RIGHTS (C16), io_uring registered files, the child side of spawn (C13)",
     ]
-    chk.extra.update({"scenarios": len(scens), "plan_items": len(plan), "windows_judged": len(verdicts),
+    chk.extra.update({"scenarios": len(scens), "scenarios_skipped": skipped, "plan_items": len(plan), "windows_judged": len(verdicts),
                       "faults_not_delivered": not_hit, "incomplete_windows": incomplete[:20], "incomplete_count": len(incomplete),
                       "model_vs_proc_drift": drift[:10], "model_checking": mc,
                       "calls_per_scenario": {s: [c["name"] for c in dry[s][2]] for s in scens}})
